@@ -88,22 +88,36 @@ def run(ctx):
     g = R.Gen(rng, T)
     n = 5000 if ctx.tier == 'quick' else 120000
 
-    lists = []
-    for i in range(n):
-        odd = i % 4 == 0
-        k = rng.choice(list(R.SCHEMA)) if rng.random() < 0.7 else None
-        base = [g.rule(k, odd) for _ in range(rng.randint(1, 4))]
-        l = list(base)
-        for _ in range(rng.randint(1, 5)):
-            l.append(g.perturb(rng.choice(l), odd))
-        if rng.random() < 0.1:
-            l.insert(rng.randrange(len(l) + 1), None)
-            if rng.random() < 0.5:
+    def gen_lists(count, kinds=None, allow_odd=True):
+        res = []
+        for i in range(count):
+            odd = allow_odd and i % 4 == 0
+            k = rng.choice(kinds or list(R.SCHEMA)) if (kinds or rng.random() < 0.7) else None
+            base = [g.rule(k, odd) for _ in range(rng.randint(1, 4))]
+            l = list(base)
+            for _ in range(rng.randint(1, 5)):
+                l.append(g.perturb(rng.choice(l), odd))
+            if rng.random() < 0.1:
                 l.insert(rng.randrange(len(l) + 1), None)
-        rng.shuffle(l)
-        lists.append(l)
+                if rng.random() < 0.5:
+                    l.insert(rng.randrange(len(l) + 1), None)
+            rng.shuffle(l)
+            res.append(l)
+        return res
+    lists = gen_lists(n)
     ops = ['\t'.join(R.enc(x) for x in l) for l in lists]
     go, le, bad = ctx.diff('merge', ops, label='Rules.Merge vs mergeRules')
+    if bad:
+        # focus the search on the kinds where the real code left the model
+        kinds = sorted({x['kind'] for i in bad for x in lists[i] if x is not None})
+        extra = gen_lists(4 * n, kinds=kinds, allow_odd=False)
+        eops = ['\t'.join(R.enc(x) for x in l) for l in extra]
+        ego = ctx.run_go('merge', eops)
+        ctx.cov['evaluations'] += len(eops)
+        lists += extra
+        ops += eops
+        go += ego
+        ctx.cov['search']['focused_on_kinds'] = kinds
     for i in bad[:4]:
         ctx.sample({'op': ops[i], 'go': go[i], 'model': le[i]})
     if bad:
